@@ -181,8 +181,11 @@ def check(case, ctx):
             E = None
         if E:
             pk = case.get("pick", [0, 0, 0, 0])
-            arg = E[0] if (len(E) == 1 and pk[1] % 2 == 0) else list(E)
+            arg = E[0] if (len(E) == 1 and pk[1] % 2 == 0) else (set(E) if pk[2] % 2 else list(E))
+            arg_before = sorted(arg) if not isinstance(arg, str) else arg
             mm = need(lib(cg.tx.sensitization_transform, c, n, arg), "sensitization_ep", f"sensitization_transform(c,{n!r},{arg!r})")
+            if (sorted(arg) if not isinstance(arg, str) else arg) != arg_before:
+                raise Violation("sensitization_ep|mutates_collection_argument", f"the endpoints collection passed by the caller was changed: {arg_before} -> {sorted(arg)}")
             sub_inputs = sorted(x for x in (refsim.ancestors(c, E) | set(E)) if g.nodes[x]["type"] == "input")
             if set(refsim.free_nodes(mm)) != set(sub_inputs):
                 raise Violation("sensitization_ep|free", f"free signals {refsim.free_nodes(mm)} != cone inputs {sub_inputs}")
@@ -236,6 +239,31 @@ def check(case, ctx):
     av = need(lib(cg.props.avg_sensitivity, c, n, approx=False), "avg_sensitivity", f"avg_sensitivity(c,{n!r},approx=False)")
     if Fraction(av) != tot:
         raise Violation("avg_sensitivity|value", f"avg_sensitivity(c,{n!r}) = {av}, reference {tot}")
+    # list form: one result per node, each over that node's own startpoints
+    others = [x for x in sorted(g.nodes) if x != n and 1 <= len([y for y in (refsim.ancestors(c, [x]) | {x}) if g.nodes[y]["type"] == "input"]) <= 5]
+    if others:
+        m2 = others[(len(sp) * 5 + len(outs)) % len(others)]
+        cone2 = refsim.ancestors(c, [m2]) | {m2}
+        sp2 = sorted(x for x in cone2 if g.nodes[x]["type"] == "input")
+        b2, W3 = refsim.std_assignment(sp2)
+        sub2 = type("V", (), {"graph": g.subgraph(cone2), "blackboxes": {}})
+        base2 = refsim.simulate(sub2, b2, W3)
+        exp2 = {}
+        for s_ in sp2:
+            bb_ = dict(b2)
+            bb_[s_] = b2[s_] ^ ((1 << W3) - 1)
+            exp2[s_] = Fraction(refsim.popcount(base2[m2] ^ refsim.simulate(sub2, bb_, W3)[m2]), W3)
+        both = need(lib(cg.props.influence, c, [n, m2], approx=False), "influence_list", f"influence(c,[{n!r},{m2!r}],approx=False)")
+        if not isinstance(both, dict) or set(both) != {n, m2}:
+            raise Violation("influence_list|keys", f"influence with a node list returned keys {sorted(both) if isinstance(both, dict) else both}")
+        for node_, exp_, sp_ in ((n, {s_: Fraction(refsim.popcount(diffs[s_]), W2) for s_ in sp}, sp), (m2, exp2, sp2)):
+            got_ = both[node_]
+            if set(got_) != set(sp_) or any(Fraction(got_[s_]) != exp_[s_] for s_ in sp_):
+                raise Violation("influence_list|value", f"influence(c,[{n!r},{m2!r}])[{node_!r}] = {got_}, reference {exp_}")
+        avl = need(lib(cg.props.avg_sensitivity, c, [n, m2], approx=False), "avg_sensitivity_list", "avg_sensitivity with a node list")
+        if set(avl) != {n, m2} or Fraction(avl[n]) != tot or Fraction(avl[m2]) != sum(exp2.values()):
+            raise Violation("avg_sensitivity_list|value", f"avg_sensitivity(c,[{n!r},{m2!r}]) = {avl}")
+        labels.append("list_form")
     if refsim.snapshot(c) != snap:
         raise Violation("sensitivity|mutates_argument", "argument modified")
     k = len(sp)
